@@ -2335,10 +2335,10 @@ def run_sim(run, props=None, source=None):
     return sim
 
 
-def generate_and_run(seed, prop, props=None, clean=True):
+def generate_and_run(seed, prop, props=None, clean=True, phased=False):
     """Draw a configuration and a step list from *seed* while executing it."""
-    from .gen import Gen
-    g = Gen(seed, prop, clean)
+    from .gen import Gen, PhasedGen
+    g = (PhasedGen if phased else Gen)(seed, prop, clean)
     run = {"prop": prop, "seed": seed, "clean": clean, "config": g.make_config(), "steps": []}
     sim = Sim(run, props)
     sim.execute(g.next_step)
